@@ -1,6 +1,7 @@
 package main
 
 import (
+	"os"
 	"fmt"
 	"go/token"
 	"go/types"
@@ -480,6 +481,18 @@ func runC20(c *Check) {
 				n2++
 				c.Touch(fn)
 				g := func(iff *ssa.If, br int) bool {
+					// the meaning of the comparison: it implies len(data) - high >= 0
+					target := linOfValue(sl.High).scale(-1)
+					lenKey := "len(" + atomKey(sl.X) + ")"
+					target.terms[lenKey] += 1
+					if target.terms[lenKey] == 0 {
+						delete(target.terms, lenKey)
+					}
+					for _, e := range edgeGeq(iff, br) {
+						if impliesGeq(e, target) {
+							return true
+						}
+					}
 					r, ok := edgeRel(iff, br)
 					if !ok {
 						return false
@@ -513,6 +526,19 @@ func runC20(c *Check) {
 				}
 				// multiplication-by-constant truncation `data[:K*n]` guarded by len(data) > K*n
 				ok2, w := mustPass(in, g)
+				if !ok2 {
+					// data[:len(data)-k]: never above the length
+					t := linOfValue(sl.High).scale(-1)
+					t.terms["len("+atomKey(sl.X)+")"] += 1
+					if t.terms["len("+atomKey(sl.X)+")"] == 0 {
+						delete(t.terms, "len("+atomKey(sl.X)+")")
+					}
+					if d, isC := t.isConst(); isC && d >= 0 {
+						ok2, w = true, nil
+					} else if os.Getenv("SPYDEBUG") != "" {
+						fmt.Fprintf(os.Stderr, "DEBUG slice-upper-bound %s: len-high = %s\n", c.P.Pos(in.Pos()), t)
+					}
+				}
 				c.Decide(ok2, "R2", fmt.Sprintf("%s#slice-upper-bound", c.P.Key(fn)), in.Pos(), "bounds edge-cutset", w,
 					"the computed upper bound is tested against the data length", "stored data is sliced with a computed upper bound that is not tested against its length: a file whose size is not a multiple of the record size panics the node")
 			}
@@ -679,8 +705,19 @@ func runC20(c *Check) {
 								}
 								seenN[nd] = true
 								if nd.b == h {
-									okExit = false
-									break
+									// back at the loop head: fine only if, arriving this way, the loop condition
+									// is known to fail (`more = false; continue`)
+									stays := false
+									for i, sx := range h.Succs {
+										if body[sx] && nd.feasibleEdge(i) {
+											stays = true
+										}
+									}
+									if stays {
+										okExit = false
+										break
+									}
+									continue
 								}
 								if !body[nd.b] {
 									continue
